@@ -13,8 +13,14 @@ def make_corrs(ctx, ops=OPS, prefix="Account."):
 
 
 def stream(ctx, n_runs, corrs, monitors, acct_types=("STOCK", "FUTURE"), gen=None, market_opts=None, cfg_opts=None, extra_sync=None):
-    for k in range(n_runs):
-        rnd = random.Random(ctx.rnd.random())
+    forced = getattr(ctx, "replay_run", None)          # (run index, run seed) from a replay file: re-run exactly that scenario
+    plan = [forced] if forced else None
+    for k in range(n_runs if plan is None else 1):
+        if plan is not None:
+            k, rs = plan[0]
+        else:
+            rs = ctx.rnd.random()
+        rnd = random.Random(rs)
         if gen is not None:
             S, cfgk = gen(rnd, k)
         else:
@@ -23,6 +29,7 @@ def stream(ctx, n_runs, corrs, monitors, acct_types=("STOCK", "FUTURE"), gen=Non
         if not cfgk["accounts"]:
             continue
         tr = trading.run_trading(rnd, S, cfgk)
+        tr.run_seed, tr.run_index = rs, k
         ctx.stats["runs"] += 1
         if tr.exc is not None:
             ctx.stats["runs_ended_by_exception:" + type(tr.exc).__name__] += 1
